@@ -47,17 +47,20 @@ def check(ctx):
         ex = lp.data.get('exit')
         inside = g.reachable_from([t for t, _ in g.succ[lp.id]],
                                   blocked=[x for x in [ex] if x is not None])
+        # (handlers of helpers called in the loop count too: "any error of the probe
+        # means the name is taken" retries as blindly as a bare except around the create)
         handlers = [n for n in b.nodes('handler') if n.id in inside and
-                    g.dominates(lp.id, n.id) and n.func == lp.func and
-                    not n.data.get('finally')]
+                    g.dominates(lp.id, n.id) and not n.data.get('finally')]
         if not handlers:
             ctx.ob('R17.1', 'unbounded loop without exception-driven retry', True, node=lp)
+        allow_all = [n.id for n in b.nodes('assume') if n.id in inside and
+                     g.dominates(lp.id, n.id) and
+                     errno_allow(n.data['cond'], n.data['pol'])]
         for h in handlers:
             classes = h.data.get('classes') or ('BaseException',)
             specific = all(c in ('FileExistsError', 'FileNotFoundError', 'IsADirectoryError',
                                  'NotADirectoryError', 'InterruptedError') for c in classes)
-            allow = [n.id for n in b.nodes('assume') if g.dominates(h.id, n.id) and
-                     errno_allow(n.data['cond'], n.data['pol'])]
+            allow = allow_all
             outside = [n.id for n in b.nodes() if not g.dominates(lp.id, n.id)]
             retry = g.reachable_from(h.id, blocked=set(allow) | set(outside))
             back = any(lp.id == t for x in retry for t, l in g.succ[x]) or lp.id in retry
@@ -67,6 +70,8 @@ def check(ctx):
                    message='every %s from the exclusive creation means "try another name": '
                            'under a persistent EACCES/ENOSPC/EROFS the loop never terminates'
                            % '/'.join(classes))
+            if h.func != lp.func:
+                continue
             way_out = False
             for n in b.nodes('raise'):
                 if not g.dominates(h.id, n.id):
